@@ -439,21 +439,25 @@ abbrev canonWhole (d d' : T2Data) : T2Data :=
     continuation that begins with a keyword line, returns its canonical value and leaves the continuation; PARAM
     hands the keyword line it read ahead back to the loop; ENDCY/ENDFI stops it).
     `_partial`: the object's sections are restricted to the kinds in `wholeKinds` (ROCKS PARAM MOMOP START NOVER
-    ELEME CONNE GENER LINEQ SOLVR RPCAP TIMES SELEC INCON INDOM MULTI DIFFU FOFT GOFT COFT MESHM SHORT, i.e. all but SIMUL —
-    decidable, `hkinds`), to the TOUGH2 flavour without SIMUL (`hsim`), the mesh in the file
+    ELEME CONNE GENER LINEQ SOLVR RPCAP TIMES SELEC INCON INDOM MULTI DIFFU FOFT GOFT COFT MESHM SHORT SIMUL, i.e. all 23 —
+    decidable, `hkinds`), to a TOUGH2-flavour object or an AUTOUGH2 object (SIMUL section, `param1_autough2` /
+    `multi_autough2` records) written without extra-precision arguments (`hfl : FlavourOK d cfg`), the mesh in the file
     (`hcfg`) and no extra-precision companion (`hxp`).  `hgood` collects the side conditions of the per-section
     theorems, each on the reader's object at the moment the section is met (so blocks are resolved against the
     rock types *read*, connections against the blocks *read*).  COFT only while the reader has no
     grid yet (its section theorem is for names, not resolved connections).  MESHM (keyword line `MESHMAKER`) and
     SHORT (header line `SHORT` + frequency, which its reader parses — raw, or padded when PARAM read it ahead) are
     included: SHORT's names are resolved against the blocks / connections / generators *read* before it.
-    Missing: SIMUL (AUTOUGH2 objects); the binary and extra-precision auxiliary files. -/
+    SIMUL: the simulator string comes back stripped and cut to 80 columns (`canonSimulator`); its side condition is
+    that this is not empty, so that the reader takes the AUTOUGH2 records too (`GoodParam.flavour`, MULTI's flavour
+    condition then hold on the reader's state).
+    Missing: the binary and extra-precision auxiliary files (AUTOUGH2 objects written with `extra_precision` set). -/
 theorem read_write_whole_partial (d : T2Data) (cfg : WriteCfg) (d' : T2Data) (f : Files) (hw : d.write cfg = .ok (d', f))
-    (hsim : d.simulator = []) (hxp : d.extraPrecision = []) (hcfg : cfg.mesh = .infile) (hend : IsEnd d.endKeyword)
+    (hfl : FlavourOK d cfg) (hxp : d.extraPrecision = []) (hcfg : cfg.mesh = .infile) (hend : IsEnd d.endKeyword)
     (hkinds : d'.sections.all (wholeKinds.contains ·) = true)
     (hgood : GoodFrom (stepCanon d') (GoodStep d') d'.sections (startObj d)) :
     T2Data.read .default f = .ok (canonWhole d d') :=
-  whole_read_write d (stepCanon d') (GoodStep d') (· ∈ wholeKinds) wholeKinds_sections hsim hxp hend cfg hcfg d' f hw
+  whole_read_write d (stepCanon d') (GoodStep d') (· ∈ wholeKinds) wholeKinds_sections hxp hend cfg hfl hcfg d' f hw
     (fun kw d0 hk hx hg => step_ok d' kw d0 hk hx hg)
     (fun kw hk => by simpa using (List.all_eq_true.mp hkinds) kw hk) hgood
 
@@ -479,7 +483,7 @@ abbrev canonWholeMesh (d d' : T2Data) : T2Data :=
     last.) -/
 theorem read_write_whole_meshfile_partial (d : T2Data) (cfg : WriteCfg) (d' : T2Data) (f : Files)
     (hw : d.write cfg = .ok (d', f))
-    (hsim : d.simulator = []) (hxp : d.extraPrecision = []) (hcfg : cfg.mesh = .ascii) (hend : IsEnd d.endKeyword)
+    (hfl : FlavourOK d cfg) (hxp : d.extraPrecision = []) (hcfg : cfg.mesh = .ascii) (hend : IsEnd d.endKeyword)
     (hkinds : (d'.sections.filter notMesh).all (wholeKinds.contains ·) = true)
     (hgood : GoodFrom (stepCanon d') (GoodStep d') (d'.sections.filter notMesh) (startObj d))
     (hb : ∀ b ∈ d'.blocks, GoodBlock (canonFrom (stepCanon d') (d'.sections.filter notMesh) (startObj d)).rocks b)
@@ -495,10 +499,10 @@ theorem read_write_whole_meshfile_partial (d : T2Data) (cfg : WriteCfg) (d' : T2
       exact absurd this (by decide)
     rw [if_neg hn] at h
     exact h
-  refine ⟨?_, whole_read_write_ascii d (stepCanon d') (GoodStep d') (· ∈ wholeKinds) wholeKinds_sections hsim hxp hend cfg hcfg
+  refine ⟨?_, whole_read_write_ascii d (stepCanon d') (GoodStep d') (· ∈ wholeKinds) wholeKinds_sections hxp hend cfg hfl hcfg
     d' f hw (fun kw d0 hk hx hg => step_ok d' kw d0 hk hx hg)
     (fun kw hk => by simpa using (List.all_eq_true.mp hkinds) kw hk) hgood hnob hb hwb hc hwc⟩
-  obtain ⟨_, _, _, _, _, _, _, rfl⟩ := write_ascii d hsim hxp cfg hcfg d' f hw
+  obtain ⟨_, _, _, _, _, _, _, rfl⟩ := write_ascii d hxp cfg hfl hcfg d' f hw
   rfl
 
 /-- **the whole model, field by field**: in the object read back, the title is the written one (cut to 80 columns);
@@ -533,11 +537,11 @@ theorem whole_fields (d d' : T2Data) :
 /-- **the second write, for whole objects** (corollary): writing what was read from the first file is writing the
     canonical object — `write (read (write d)) = write (canon d)`, with any arguments of the second `write` -/
 theorem write_read_write_whole_partial (d : T2Data) (cfg : WriteCfg) (d' : T2Data) (f : Files) (hw : d.write cfg = .ok (d', f))
-    (hsim : d.simulator = []) (hxp : d.extraPrecision = []) (hcfg : cfg.mesh = .infile) (hend : IsEnd d.endKeyword)
+    (hfl : FlavourOK d cfg) (hxp : d.extraPrecision = []) (hcfg : cfg.mesh = .infile) (hend : IsEnd d.endKeyword)
     (hkinds : d'.sections.all (wholeKinds.contains ·) = true)
     (hgood : GoodFrom (stepCanon d') (GoodStep d') d'.sections (startObj d)) (cfg2 : WriteCfg) :
     (T2Data.read .default f).bind (fun d1 => d1.write cfg2) = (canonWhole d d').write cfg2 := by
-  rw [read_write_whole_partial d cfg d' f hw hsim hxp hcfg hend hkinds hgood]
+  rw [read_write_whole_partial d cfg d' f hw hfl hxp hcfg hend hkinds hgood]
   rfl
 
 /-- reader and writer choose `param1` / `param1_autough2` and `multi` / `multi_autough2` by the same function
@@ -780,6 +784,25 @@ example : GoodStep exWhole2.updateSections c!"SHORT"
   simp only [List.mem_cons, List.not_mem_nil, or_false] at hn
   subst hn
   exact ⟨⟨rfl, by decide +kernel⟩, by unfold NotSubKw; decide +kernel, by decide +kernel⟩
+
+-- an AUTOUGH2 object: SIMUL section first, then PARAM read and written with the `param1_autough2` record
+def exAut : T2Data := { exWhole with simulator := c!"AUTOUGH2.2EW" }
+example : FlavourOK exAut exCfg ∧ ¬ exAut.simulator = [] := ⟨Or.inr ⟨rfl, rfl⟩, by decide⟩
+example : ∃ f, exAut.write exCfg = .ok (exAut.updateSections, f) := by
+  refine ⟨(match exAut.write exCfg with | .ok x => x.2 | .error _ => ⟨[], none, none⟩), ?_⟩
+  decide +kernel
+example : exAut.updateSections.sections = [c!"SIMUL", c!"ROCKS", c!"PARAM", c!"MOMOP", c!"START", c!"ELEME", c!"CONNE"] := by
+  decide +kernel
+-- the side conditions of SIMUL, and of PARAM on the reader's object after SIMUL and ROCKS (AUTOUGH2 flavour on both sides)
+example : GoodStep exAut.updateSections c!"SIMUL" (startObj exAut) := ⟨by decide, by decide +kernel⟩
+example : GoodParam (pr1 exAut.updateSections) pr2 fts fdi exAut.updateSections
+    (canonFrom (stepCanon exAut.updateSections) [c!"SIMUL", c!"ROCKS"] (startObj exAut)) :=
+  { flavour := by decide +kernel, fresh := rfl, pbW := by decide +kernel,
+    mop := ⟨(match (paramAfter1 (pr1 exAut) exAut T2Data.empty).get c!"_option_str" with | some (.str s) => s | _ => []),
+            by decide +kernel, by decide +kernel⟩,
+    pb := by decide +kernel,
+    ct := ⟨-2, by decide +kernel, by decide +kernel, fun _ => by decide +kernel⟩,
+    tsVals := by decide +kernel, diVals := by decide +kernel }
 
 -- the same object written with an ASCII MESH file: the main file keeps ROCKS PARAM MOMOP START, the block goes to MESH
 example : (∃ f, exWhole.write ⟨.ascii, none, none⟩ = .ok (exWhole.updateSections, f)) ∧
